@@ -319,6 +319,7 @@ def C14(rep, prog, tier):
     wrappers.refuse(rep, ex, rules=("TIMEOUT.row", "TIMEOUT.flow", "PREPROC.once"))
     wrappers.refuse_manager(rep, ex, rules=("TIMEOUT.row",))
     wrappers.preprocessing_timeout_rows(rep, ex)
+    wrappers.rows(rep, ex, which=("manager",), rules=("ROWS.columns",))
     enum.loop(rep, ex, rules=("TIMEOUT.guarded-raise",))
     rep.only = {"STATE.solver-per-query"}
     try:
